@@ -1036,7 +1036,7 @@ class Engine:
             for sel in rec.spec["sels"]:
                 for lv in sel["levels"]:
                     want[lv["fn"]] = want.get(lv["fn"], 0) + 1
-                    for sb in lv.get("sibs", []):
+                    for sb in msel.walk_sibs(lv):
                         want[sb["fn"]] = want.get(sb["fn"], 0) + 1
         return want
 
